@@ -216,11 +216,39 @@ def _representable(raw):
             raise ValueError("comma in label")
 
 
+UTF8_EDGES = ["7f", "80", "bf", "c0 80", "c1 bf", "c2 80", "c2 7f", "c2 c0", "df bf", "e0 9f bf", "e0 a0 80", "e0 a0 7f",
+              "ec bf bf", "ed 9f bf", "ed a0 80", "ed bf bf", "ee 80 80", "ef bf bf", "ef bf", "f0 8f bf bf", "f0 90 80 80",
+              "f0 90 80", "f1 80 80 80", "f3 bf bf bf", "f4 8f bf bf", "f4 90 80 80", "f5 80 80 80", "f8 88 80 80 80",
+              "ff", "fe", "e2 82 ac", "f0 9f 98 80", "00", "41", "c3 a9", "e2 28 a1", "f0 28 8c bc", "f0 90 28 bc", "f0 28 8c 28"]
+
+
+def utf8_probe(rng):
+    """byte strings around every boundary of the UTF-8 well-formedness table, alone and in context"""
+    out = b""
+    for _ in range(rng.choice([1, 1, 1, 2, 3])):
+        r = rng.random()
+        if r < 0.7:
+            out += bytes.fromhex(rng.choice(UTF8_EDGES))
+        elif r < 0.85:
+            out += bytes(rng.randrange(256) for _ in range(rng.choice([1, 2, 3, 4])))
+        else:
+            out += chr(rng.choice([0x7f, 0x80, 0x7ff, 0x800, 0xd7ff, 0xe000, 0xffff, 0x10000, 0x10ffff, rng.randrange(0x110000 - 0x800) ])
+                       ).encode("utf-8", "surrogatepass")
+    return out
+
+
 class C18(Prop):
     id = "C18"
     lean_modules = ["PkgProofs.Props.C18"]
     generated = ["MetadataTables"]
-    theorems = []
+    theorems = [
+        "C18.partition", "C18.no_loss_no_invention", "C18.typed", "C18.unparsed_keeps_all_values",
+        "C18.repeat_single_use_unparsed", "C18.dup_label_unparsed", "C18.bad_bytes_unparsed", "C18.bad_chunk_invalid",
+        "C18.unknown_unparsed", "C18.string_once_raw", "C18.list_field_raw", "C18.body_description_rule",
+        "C18.empty_body_ignored", "C18.bad_body_rule", "C18.raises_iff", "C18.never_raises",
+        "C18.result_order_irrelevant", "C18.loop_partition", "C18.loop_no_invention", "C18.raw_lookup_iff",
+        "C18.unparsed_lookup_iff", "C18.parseProjectUrls_nil", "C18.emailToRaw_values_nodup", "C18.tables_disjoint",
+    ]
     rule = ("header documents built from a structure: known (30) / unknown / MIME header names in random case and order, "
             "repeats, values plain / non-ASCII / RFC 2047 word / folded / raw bytes incl. invalid and boundary UTF-8, "
             "LF and CRLF, with / without / undecodable body, multipart and message/rfc822 content types, str and bytes input, "
@@ -236,6 +264,9 @@ class C18(Prop):
     # ---- correspondence
     def gen_cases(self, rng, n):
         for i in range(n):
+            if rng.random() < 0.12:
+                yield ("email.utf8", [G.enc_bytes(utf8_probe(rng))])
+                continue
             doc = G.document(rng, wellformed=rng.random() < 0.4)
             if not doc["bytes"] and rng.random() < 0.03:
                 doc["lone"] = True
@@ -250,6 +281,12 @@ class C18(Prop):
 
     def real(self, op, args):
         M = _M()
+        if op == "email.utf8":
+            b = bytes(int(x, 16) for x in args[0].split(".")) if args[0] != "-" else b""
+            try:
+                return "ok " + core.enc(b.decode("utf8", "strict"))
+            except UnicodeDecodeError:
+                return "err UnicodeDecodeError"
         doc = json.loads(core.dec(args[0]))
         if self._args(doc) != list(args):
             raise RuntimeError("stale extraction for this document")
@@ -264,6 +301,8 @@ class C18(Prop):
         return out.startswith("ok")
 
     def branch(self, op, args, out):
+        if op == "email.utf8":
+            return "utf8:" + out[:3]
         if not out.startswith("ok"):
             return out
         raw, unp = out[3:].split("|")
@@ -277,6 +316,8 @@ class C18(Prop):
         return lab
 
     def judge(self, op, args, real, model, driver):
+        if op == "email.utf8":
+            return None
         doc = json.loads(core.dec(args[0]))
         if real.startswith("raw"):
             return ("never_raises", {"doc": doc})
